@@ -174,6 +174,32 @@ def toDictO {α κ ν} (eq : κ → κ → Bool) (key : α → Except Err κ) (e
   onError s e := emit s [.error e]
   onCompleted s := emit [] [.next s, .completed]
 
+/-! ### unhashable elements / keys (the code as it is)
+`to_set` passes the bound method `s.add` as `on_next`, `to_dict` executes `m[key] = element` outside its `try` blocks: for an
+unhashable value Python raises `TypeError` *inside the handler*, which nothing catches — it propagates to the emitter, the
+element is skipped, the subscriber is not told and the run goes on.  (Not a user callback, so outside C09; a deviation from the
+reference `set(xs)` / dict comprehension, which raise.)  `toSetO` / `toDictO` are these operators on hashable input. -/
+def toSetHO {α} (hashable : α → Bool) (eq : α → α → Bool) : Op α (List α) where
+  σ := List α
+  init := []
+  onNext s x := if hashable x then emit (setAdd eq s x) [] else ⟨s, [], some "TypeError"⟩
+  onError s e := emit s [.error e]
+  onCompleted s := emit s [.next s, .completed]
+
+def toDictHO {α κ ν} (hashable : κ → Bool) (eq : κ → κ → Bool) (key : α → Except Err κ) (elem : α → Except Err ν) :
+    Op α (List (κ × ν)) where
+  σ := List (κ × ν)
+  init := []
+  onNext s x :=
+    match key x with
+    | .error e => emit s [.error e]
+    | .ok k =>
+      match elem x with
+      | .error e => emit s [.error e]
+      | .ok v => if hashable k then emit (dictSet eq s k v) [] else ⟨s, [], some "TypeError"⟩
+  onError s e := emit s [.error e]
+  onCompleted s := emit [] [.next s, .completed]
+
 /-! ### `_some.py: some_` (without predicate) -/
 def someOp {α} : Op α Bool where
   σ := Unit
